@@ -2848,11 +2848,9 @@ void mmd_engine_update_metavalue_for_key(mmd_engine * e, const char * key, const
 	d_string_free(temp, true);
 	free(clean);
 
-	// The text has changed: forget the old values and offsets, so that the
-	// next query scans the metadata again
-	while (e->metadata_stack->size) {
-		meta_free(stack_pop(e->metadata_stack));
-	}
+	// The text has changed: forget the old values and offsets and any parse
+	// tree of the old text, so that the next query scans the metadata again
+	mmd_engine_reset(e);
 }
 
 
